@@ -80,3 +80,9 @@ Definition bc_raw_tab (tab : list (list (list (list nat)))) (n v : nat) : Q :=
 Definition bc_def_tab (g : qadj) (normalized directed : bool) : list Q :=
   let tab := sp_table g in
   map (fun v => bc_scale (length g) normalized directed (bc_raw_tab tab (length g) v)) (seq 0 (length g)).
+
+(* checker: every row of the adjacency lists a neighbour at most once (the shape of
+   the private index successors_vec); sound by Proofs/BrandesBfsOk.rows_nodup_sound *)
+Fixpoint nodupb (l : list nat) : bool :=
+  match l with [] => true | x :: t => negb (nmem x t) && nodupb t end.
+Definition rows_nodup (g : qadj) : bool := forallb (fun r => nodupb (map fst r)) g.
